@@ -1,4 +1,5 @@
 import TorrentVerif.Proofs.Merkle
+import TorrentVerif.Proofs.CreatorsAgree
 /-
   C10 — all hashers agree (file-level part).
   `HasherV2`, `HasherHybrid` and `FileHasher` (with and without the hybrid flag) are three
@@ -78,5 +79,58 @@ theorem hashers_meet_spec (H H1 : Bytes → Bytes) (B hs j : Nat) (d : Bytes)
 example : (Impl.fileHasher toyH toyH1 2 1 (2 ^ 1) false [1,2,3,4,5,6,7,8,9]).1 = [54] := by
   rw [(hashers_meet_spec toyH toyH1 2 1 1 [1,2,3,4,5,6,7,8,9] (by decide) (by decide)).1.2.2.1]
   simp [Spec.root, Spec.leaves, Spec.padTo, chunks, show lg 5 = 3 by decide, tree, toyH, zeros]
+
+end TorrentVerif.Props.C10
+
+/-! ### whole metafiles (creators of `Model/Creators.lean`) -/
+namespace TorrentVerif.Props.C10
+open TorrentVerif TorrentVerif.Toy TorrentVerif.Ex.G7
+
+/-- For every content tree (single file or directory), every option record and every
+    enumeration order, the command-line creator in v2 mode (`TorrentAssembler`,
+    `meta_version="2"`) and the class-based v2 creator (`TorrentFileV2`) write the same metafile
+    value and the same bytes — in particular the same `info` dictionary and the same
+    `piece layers` — although they run different hashers (`FileHasher` / `HasherV2`) and fill
+    `info` in a different order. Piece length = `bpp · B`, any `B > 0`, `bpp > 0`, any hashes. -/
+theorem creators_agree_v2 (o : CreateOpts) (H H1 : Bytes → Bytes) (B hs bpp : Nat)
+    (hB : 0 < B) (hbpp : 0 < bpp) (hpl : o.pieceLength = bpp * B)
+    (enum : List (Bytes × Impl.FTree) → List (Bytes × Impl.FTree)) (t : Node) :
+    Impl.createAsm false o H H1 B hs enum t = Impl.createV2Class o H B hs enum t ∧
+    (Impl.createAsm false o H H1 B hs enum t).map (fun x => (x.1.get? K.info, x.1.get? K.pieceLayers))
+      = (Impl.createV2Class o H B hs enum t).map (fun x => (x.1.get? K.info, x.1.get? K.pieceLayers)) := by
+  have h := createAsm_false_eq o H H1 B hs bpp hB hbpp hpl enum t
+  exact ⟨h, by rw [h]⟩
+
+/-- met by: the example tree (nested, an empty file, a 3-piece file), blocks of 2 bytes,
+    2 blocks per piece, enumerated backwards -/
+example : Impl.createAsm false exOpts toyH toyH1 2 1 List.reverse exTree
+    = Impl.createV2Class exOpts toyH 2 1 List.reverse exTree :=
+  (creators_agree_v2 exOpts toyH toyH1 2 1 2 (by decide) (by decide) rfl List.reverse exTree).1
+
+/-- The command-line creator in hybrid mode (`TorrentAssembler`, `meta_version="3"`) and the
+    class-based hybrid creator (`TorrentFileHybrid`) write the same metafile value and the same
+    bytes — same `info` (file tree, `files` with padding entries, `pieces`, or `length` for a
+    single file) and same `piece layers`. The v1 hash must have 20-byte digests (SHA-1 has):
+    for a single file the assembler patches the last 20 bytes of a byte string where the class
+    patches the last element of a list. -/
+theorem creators_agree_hybrid (o : CreateOpts) (H H1 : Bytes → Bytes) (B hs bpp : Nat)
+    (hB : 0 < B) (hbpp : 0 < bpp) (hpl : o.pieceLength = bpp * B) (h20 : ∀ x, (H1 x).length = 20)
+    (enum : List (Bytes × Impl.FTree) → List (Bytes × Impl.FTree)) (t : Node) :
+    Impl.createAsm true o H H1 B hs enum t = Impl.createHybridClass o H H1 B hs enum t ∧
+    (Impl.createAsm true o H H1 B hs enum t).map (fun x => (x.1.get? K.info, x.1.get? K.pieceLayers))
+      = (Impl.createHybridClass o H H1 B hs enum t).map
+          (fun x => (x.1.get? K.info, x.1.get? K.pieceLayers)) := by
+  have h := createAsm_true_eq o H H1 B hs bpp hB hbpp hpl h20 enum t
+  exact ⟨h, by rw [h]⟩
+
+/-- met by: the example tree and a single file of 9 bytes (short last piece) -/
+example : Impl.createAsm true exOpts toyH toyH20 2 1 id exTree
+      = Impl.createHybridClass exOpts toyH toyH20 2 1 id exTree ∧
+    Impl.createAsm true exOpts toyH toyH20 2 1 id exFile
+      = Impl.createHybridClass exOpts toyH toyH20 2 1 id exFile :=
+  ⟨(creators_agree_hybrid exOpts toyH toyH20 2 1 2 (by decide) (by decide) rfl
+      (by intro x; simp [toyH20]) id exTree).1,
+   (creators_agree_hybrid exOpts toyH toyH20 2 1 2 (by decide) (by decide) rfl
+      (by intro x; simp [toyH20]) id exFile).1⟩
 
 end TorrentVerif.Props.C10
